@@ -304,7 +304,7 @@ def gen_fn_op(s: Choices, ds):
     name = FN_OPS[s.draw(len(FN_OPS))]
     op = {"op": name, "cols": [0], "mask": gen.gen_mask(s, ds, ("none", "bool"))}
     if name in ("fn_ema", "fn_ema_grouped"):
-        op["alpha"] = [0.5, 1.0, 0.25][s.draw(3)]
+        op["alpha"] = [0.5, 1.0, 0.25, 0.5, 1.5][s.draw(5)]  # (1.5 is rejected, late)
     if name in ("fn_ema_timed", "fn_ema_grouped_timed"):
         op["halflife"] = ["2s", "500ms"][s.draw(2)]
         op["steps"] = [1 + s.draw(3) for _ in range(ds["n"])]
@@ -415,10 +415,12 @@ def gen_scenario(scen: Choices, cls, cfg):
         elif kind == "op":
             fam = scen.weighted([(4, "basic"), (2, "composite"), (3, "rowwise"), (3, "select")])
             step = {"kind": "op", "op": ops.gen_op(scen, fam, ds, mask_kinds=("none", "bool", "slice", "positions"))}
+            if len(step["op"].get("cols", ())) == 1 and step["op"]["op"] in ops.BASIC + ops.ROWWISE and scen.chance(1, 6):
+                step["alias_cols"] = True
         elif kind == "fn":
             step = {"kind": "fn", "op": gen_fn_op(scen, ds)}
         else:
-            step = _failing(scen)
+            step = _failing(scen, ds)
         step["scribble"] = scen.chance(3, 4)
         steps.append(step)
         scen.end(b_)
@@ -502,7 +504,7 @@ def execute(sc, sched: Choices, cls, cfg):
     scribbled_and_repeated = False
 
     def new_ctx(with_fault=None):
-        return executor.SimContext(sched=sched, workers=st["workers"], cpu_count=st["cpu"], fault=with_fault, monitor=True)
+        return executor.SimContext(sched=sched, workers=st["workers"], cpu_count=st["cpu"], fault=with_fault, monitor=True, preempt=st.get("preempt", False))
 
     def account(ctx, site_op):
         nonlocal max_tasks
@@ -510,6 +512,8 @@ def execute(sc, sched: Choices, cls, cfg):
         rec["n_pools"] += ctx.n_pools
         rec["interleavings"].extend(ctx.interleavings())
         events.append(ctx.event_digest())
+        rec["n_preemptions"] = rec.get("n_preemptions", 0) + ctx.stats.get("preemptions", 0)
+        rec["preempt_sites"] = sorted(set(rec.get("preempt_sites", ())) | ctx.preempt_sites)
         max_tasks = max(max_tasks, ctx.max_tasks)
         for k_, v_ in ctx.stats.items():
             if v_:
@@ -533,7 +537,15 @@ def execute(sc, sched: Choices, cls, cfg):
     containers = {}  # the client's own list / dict of value columns, reused across calls
     facades = []  # the client's pandas-style facade objects around `gb`, kept and reused
 
-    def values_obj(cols):
+    def values_obj(cols, alias=False):
+        if len(cols) == 1 and alias:
+            # the same buffer under two column names: two worker tasks of one call then work on
+            # one caller-owned buffer (under the pre-emptive pool model: at the same time)
+            key = ("alias", cols[0])
+            if key not in containers:
+                containers[key] = {"a": owned_vals[cols[0]].obj, "b": owned_vals[cols[0]].obj}
+                containers[("snap",) + key] = _container_snapshot(containers[key])
+            return containers[key]
         if len(cols) == 1:
             return owned_vals[cols[0]].obj
         key = tuple(cols)
@@ -656,7 +668,7 @@ def execute(sc, sched: Choices, cls, cfg):
                 return getattr(target, op["op"])
             if kind == "fn":
                 return call_fn_op(op, owned_codes.obj, fn_ngroups, owned_vals[0].obj, mask_obj, times=None if owned_times is None else owned_times.obj)
-            values = values_obj(op["cols"])
+            values = values_obj(op["cols"], alias=bool(step.get("alias_cols")) and op.get("via") != "api")
             m = mask_obj
             if kind == "failing_call":
                 fk = step["fail"]
@@ -777,10 +789,21 @@ def execute(sc, sched: Choices, cls, cfg):
     return rec
 
 
-def _failing(s: Choices):
-    fk = s.weighted([(2, "short_values"), (2, "long_values"), (2, "bad_mask_len"), (2, "user_func_raises")])
+def _failing(s: Choices, ds=None):
+    fk = s.weighted([(2, "short_values"), (2, "long_values"), (2, "bad_mask_len"), (2, "user_func_raises"), (3, "bad_option")])
     if fk == "user_func_raises":
         op = {"op": "apply", "cols": [0], "transform": False, "mask": {"kind": "none"}, "func": "raises"}
+    elif fk == "bad_option":
+        # an option value the library rejects late, after it has prepared its inputs (anything it
+        # changed "for the duration of the call" must have been put back by then; seeded change C19-j)
+        mask = gen.gen_mask(s, ds, ("bool", "none", "bool")) if ds is not None else {"kind": "none"}
+        which = s.weighted([(3, "alpha"), (1, "q"), (1, "times_without_halflife")])
+        if which == "alpha":
+            op = {"op": "ema", "cols": [0], "mask": mask, "ibg": False, "alpha": [1.5, 0.0, -0.5][s.draw(3)]}
+        elif which == "q":
+            op = {"op": "quantile", "cols": [0], "transform": False, "mask": mask, "q": [[0.25, 1.5], [1.5]][s.draw(2)]}
+        else:
+            op = {"op": "ema_timed", "cols": [0], "mask": mask, "ibg": False, "halflife": None, "steps": [1 + s.draw(3) for _ in range(ds["n"] if ds is not None else 0)], "epoch": "2024"}
     else:
         opn = s.weighted([(2, "sum"), (1, "min"), (1, "cumsum"), (1, "count")])
         op = {"op": opn, "cols": [0], "transform": False, "observed_only": True, "mask": {"kind": "none"}, "skip_na": True}
